@@ -753,6 +753,44 @@ func (s *Fn) entailsD(fs, dq []Lin, goal Lin, depth int) bool {
 			if okAll {
 				return true
 			}
+		case *ssa.BinOp:
+			// wrapping arithmetic of a narrow or unsigned type: either it did not wrap (the result is the exact
+			// sum / difference) or it wrapped by exactly 2^bits
+			if !isInt(x.Type()) || (x.Op != token.ADD && x.Op != token.SUB) {
+				continue
+			}
+			bits, uns := intWidth(x.Type())
+			if bits == 64 && !uns {
+				continue
+			}
+			if bits > 32 {
+				continue
+			}
+			tried++
+			r := term(ssa.Value(x))
+			a, b := s.canon(x.X), s.canon(x.Y)
+			exact := a.add(b, 1)
+			if x.Op == token.SUB {
+				exact = a.add(b, -1)
+			}
+			lo, hi := int64(0), int64(1)<<uint(bits)-1
+			if !uns {
+				lo, hi = -(int64(1) << uint(bits-1)), int64(1)<<uint(bits-1)-1
+			}
+			mod := int64(1) << uint(bits)
+			okAll := true
+			for _, wrap := range []int64{0, 1, -1} {
+				// exact - wrap*mod is the result and lies in the type's range
+				val := exact.plus(-wrap * mod)
+				nf := append(append([]Lin{}, fs...), le(r, val), le(val, r), le(konst(lo), val), le(val, konst(hi)))
+				if !s.entailsD(nf, dq, goal, depth+1) {
+					okAll = false
+					break
+				}
+			}
+			if okAll {
+				return true
+			}
 		case *ssa.Extract:
 			// a component of a module function's tuple result: split over the callee's return cases, binding every
 			// extracted component
